@@ -38,3 +38,30 @@ Theorem C02_pubrec_other_sessions : forall br c k raw p br1 o r k',
   beq_bytes k k' = false -> assoc_b k' (br_sess br1) = assoc_b k' (br_sess br).
 Proof. exact ProofsSub.pubrec_other_sessions. Qed.
 Print Assumptions C02_pubrec_other_sessions.
+
+From Proto Require PropsHist ProofsHist.
+
+(* EXACTLY ONCE over histories: for any sequence of QoS 2 PUBLISH and PUBREL packets on a connection whose PUBRELs arrive in the order of first arrival of their identifiers, what the queue hands on is what the reference gives: every exchange hands its first payload on once, at its PUBREL *)
+Theorem C02_qos2_once : Proto.PropsHist.C02_qos2_once.
+Proof. exact Proto.ProofsHist.qos2_once. Qed.
+Print Assumptions C02_qos2_once.
+
+(* a repeated PUBLISH of an open exchange and a PUBREL of no open exchange change nothing and hand nothing on *)
+Theorem C02_qos2_repeats : Proto.PropsHist.C02_qos2_repeats.
+Proof. exact Proto.ProofsHist.qos2_repeats. Qed.
+Print Assumptions C02_qos2_repeats.
+
+(* one exchange inside any in-order history: nothing of it is handed on before its PUBREL, its first payload exactly then, and it is closed afterwards *)
+Theorem C02_qos2_exchange : Proto.PropsHist.C02_qos2_exchange.
+Proof. exact Proto.ProofsHist.qos2_exchange. Qed.
+Print Assumptions C02_qos2_exchange.
+
+(* the abstract queue run IS what process_incoming does for these packets *)
+Theorem C02_q2_step_is_model : Proto.PropsHist.C02_q2_step_is_model.
+Proof. exact Proto.ProofsHist.q2_step_is_model. Qed.
+Print Assumptions C02_q2_step_is_model.
+
+(* ... lifted to the broker: processing the packets equals the reference run *)
+Theorem C02_qos2_once_broker : Proto.PropsHist.C02_qos2_once_broker.
+Proof. exact Proto.ProofsHist.qos2_once_broker. Qed.
+Print Assumptions C02_qos2_once_broker.
